@@ -64,7 +64,7 @@ fn m_record(variant: u8, x: &Enr) -> Option<Enr> {
 // 0x02: Handshake  challenge idx << 16 | claim << 12 | record << 8 | sig
 // 0x03: Way        active-request idx << 8 | src (0 the request's destination, 1 addr_M, 2 destination IP with another port)
 // 0x04: Replay     log idx << 8 | src (0 original, 1 addr_M)
-// 0x05: Answer     shape   (M answers V's oldest request to M)
+// 0x05: Answer     shape 0..7 (M answers V's oldest request to M)
 // 0x06: Late       more than a challenge lifetime passes
 fn code(kind: u32, arg: u32) -> u32 {
     (kind << 24) | arg
@@ -163,7 +163,7 @@ impl Driver for Attack {
             let has_session = s.sessions.iter().any(|x| x.addr.socket_addr == m_addr());
             let has_req = s.active_requests.iter().any(|a| a.addr.socket_addr == m_addr());
             if has_session && has_req {
-                for shape in 0..6u32 {
+                for shape in 0..8u32 {
                     out.push((Ev::Ext(code(5, shape)), 1));
                 }
             }
@@ -220,7 +220,7 @@ impl Driver for Attack {
                         // proved(claim, addr): signature verifies under the key hashing to the claimed id
                         let claimed_key = if claim == m_id() { Some(util::enr4(&m_key(), 1, m_addr()).public_key()) } else { None };
                         if let Some(pk) = claimed_key {
-                            if v::verify_authentication_nonce(&pk, ephem_pubkey, &data, &w.nodes[V].id, id_nonce_sig) {
+                            if util::ref_verify_id_signature(&pk, ephem_pubkey, data.as_ref(), &w.nodes[V].id, id_nonce_sig) {
                                 w.proved.insert((claim.raw(), addr.socket_addr));
                             }
                         }
@@ -270,6 +270,9 @@ impl Driver for Attack {
                             (_, 3) => v::ResponseBody::Nodes { total: 1, nodes: vec![x_rec.clone()] },
                             (_, 4) => v::ResponseBody::Nodes { total: 1, nodes: vec![m_record(1, &x_rec).unwrap()] },
                             (_, 5) => v::ResponseBody::Nodes { total: 1, nodes: vec![m_record(3, &x_rec).unwrap()] },
+                            // other genuine (publicly known) records of X: without any endpoint, IPv6 only
+                            (_, 6) => v::ResponseBody::Nodes { total: 1, nodes: vec![util::enr(&util::key(100 + X as u16), &util::EnrSpec { seq: 2, ..Default::default() })] },
+                            (_, 7) => v::ResponseBody::Nodes { total: 1, nodes: vec![util::enr(&util::key(100 + X as u16), &util::EnrSpec { seq: 2, ip6: Some(("2001:db8::11".parse().unwrap(), 9000)), ..Default::default() })] },
                             (_, 2) => v::ResponseBody::Talk { response: vec![9] }, // wrong type / garbage
                             (v::RequestBody::FindNode { .. }, 1) | (_, 1) => v::ResponseBody::Nodes { total: 3, nodes: vec![] },
                             (v::RequestBody::Ping { .. }, _) => v::ResponseBody::Pong { enr_seq: 1, ip: w.nodes[V].addr.ip(), port: 9000u16.try_into().unwrap() },
@@ -302,7 +305,7 @@ impl Driver for Attack {
                         for d in w.log.iter().rev().filter(|d| d.kind == 2 && d.dst == w.nodes[V].addr) {
                             if let Ok((pk, _)) = VPacket::decode(&w.nodes[V].id, &d.bytes) {
                                 if let PacketKind::Handshake { src_id, id_nonce_sig, ephem_pubkey, .. } = pk.kind {
-                                    if src_id == x_id && v::verify_authentication_nonce(&x_pub, &ephem_pubkey, &c.challenge_data, &w.nodes[V].id, &id_nonce_sig) {
+                                    if src_id == x_id && util::ref_verify_id_signature(&x_pub, &ephem_pubkey, c.challenge_data.as_ref(), &w.nodes[V].id, &id_nonce_sig) {
                                         w.proved.insert((x_id.raw(), src));
                                     }
                                 }
